@@ -403,3 +403,7 @@ def replay(run, data) -> None:
         check_one(run, case['s'], bool(case.get('multiline')), 'replay')
     run.case(case, True, sample=case, tag='replay')
     run.case('replay-pad', True)
+
+
+# (kept at the end of the file so that the text above stays the description the check was first built to)
+RULE += ' ' + 'Later additions: the *neighbours* engine (every other kind of token directly before and after the quoted string, with and without a gap, under six option sets); another tokenizer dropped with a pending look-ahead token before the fresh one is created.'
